@@ -477,7 +477,19 @@ static int pick(vthread_t* cur) {
     buf_printf("{\"i\":%ld,\"k\":\"note\",\"guide_stop\":%d}\n", g_evno++, g_iguide);
     g_iguide = g_nguide; /* infeasible: fall back to the seeded policy */
   }
-  if (g_stalled >= 0 && (n == 0 || ++g_stall_points > 5000)) {
+  int others_idle = 0;
+  if (g_stalled >= 0) {
+    /* every other kernel thread sits in its idle loop (or is blocked): nothing but the environment
+       can make progress - the parked thread may go on even though timer ticks keep the pollers busy */
+    others_idle = 1;
+    for (int i = 0; i < g_nthr; i++) {
+      vthread_t* t = &g_thr[i];
+      if (i == g_stalled || !t->alive || !t->started) continue;
+      if (t->wait_for >= 0 && g_thr[t->wait_for].alive) continue;
+      if (t->yielding != Y_IDLE) others_idle = 0;
+    }
+  }
+  if (g_stalled >= 0 && (n == 0 || others_idle || ++g_stall_points > 5000)) {
     int p = g_stalled;
     g_stalled = -1;
     buf_printf("{\"i\":%ld,\"k\":\"note\",\"stall_end\":%d,\"others_quiet\":%d}\n", g_evno++, p, n == 0);
